@@ -269,6 +269,24 @@ def gen_zigzag(rng):
     return sibs if rng.random() < 0.6 else [sibs]
 
 
+def gen_negwide(rng):
+    """a node with 2-7 children one of which (not the first) carries a subtree so wide that its
+    left-most leaf, not the left-most leaf of the tree, has the smallest preliminary x"""
+    f = rng.randint(2, 7)
+    i = rng.randrange(1, f)
+    kids = [[[] for _ in range(rng.choice([0, 0, 0, 1, 2]))] for _ in range(f)]
+    w = rng.randint(2 * i + 2, 2 * i + 5)
+    kids[i] = [[] for _ in range(w)]
+    if rng.random() < 0.3:
+        kids[i][rng.randrange(w)] = [[] for _ in range(rng.randint(1, 3))]
+    r = rng.random()
+    if r < 0.5:
+        return kids
+    if r < 0.75:
+        return [kids, []]
+    return [[], kids]
+
+
 def tsize(t):
     return 1 + sum(tsize(k) for k in t)
 
@@ -324,7 +342,7 @@ def generate(prop, rng, tier):
                 yield "exhaustive<=6", {"cls": "Node", "tree": t, "par": list(EXH_PARAMS[k % len(EXH_PARAMS)]),
                                         "stratum": "exhaustive"}
                 k += 1
-    shapes = ["wide", "deep", "mixed", "mixed", "binary", "comb", "comb", "zigzag", "zigzag", "path", "star"]
+    shapes = ["wide", "deep", "mixed", "mixed", "binary", "comb", "comb", "zigzag", "zigzag", "negwide", "path", "star"]
     pkinds = ["unit", "dyadic", "dyadic", "dyadic", "nondyadic", "mixed"]
     for i in range(count):
         shape = rng.choice(shapes)
@@ -339,6 +357,10 @@ def generate(prop, rng, tier):
             t = gen_zigzag(rng)
             while tsize(t) > 20:
                 t = gen_zigzag(rng)
+        elif shape == "negwide":
+            t = gen_negwide(rng)
+            while tsize(t) > 22:
+                t = gen_negwide(rng)
         else:
             t = gen_tree(rng, shape, nmax)
         pk = rng.choice(pkinds)
@@ -389,8 +411,8 @@ def nontrivial(prop, case, obs):
 
 
 def rule(prop):
-    return ("fresh Node/BaseNode trees (<= 20 nodes; strata wide / deep / mixed / binary / comb = 3-6 siblings with "
-            "multi-level subtrees / zigzag = facing contours that continue below a sibling of the contour node, depth <= 7 / path / star, plus every ordered tree with <= 6 nodes (quick) or <= 7 nodes x 6 "
+    return ("fresh Node/BaseNode trees (<= 22 nodes; strata wide / deep / mixed / binary / comb = 3-6 siblings with "
+            "multi-level subtrees / zigzag = facing contours that continue below a sibling of the contour node, depth <= 7 / negwide = the smallest preliminary x is at a leaf that is not the left-most one / path / star, plus every ordered tree with <= 6 nodes (quick) or <= 7 nodes x 6 "
             "parameter sets (thorough)) x positive separations (unit / dyadic / non-dyadic / mixed) and non-negative "
             "offsets; non-trivial = >= 4 nodes, some fan-out >= 2 and depth >= 3; distinct by canonical JSON hash")
 
@@ -413,9 +435,12 @@ def explain(prop, case, obs, flags):
 
 
 def partial_clauses(prop):
-    return ["cousin separation (any two nodes of one depth >= min(sibling, subtree separation) apart) is refuted "
-            "for the faithful model (C19_cousins_refuted, known finding K1) and proved only under the guard of "
-            "C19_cousins_partial"]
+    return ["clause 4, cousin separation (any two nodes of one depth >= min(sibling, subtree separation) apart in tree "
+            "order): false for the faithful model (Example C19_cousins_refuted, C19_cousins_refuted_binary; known "
+            "finding K1) and proved only under the shape guard cousin_guard of Spec/PC19.v (C19_cousins_partial): "
+            "fan-out <= 2 everywhere, and for every node with two children [a; b] the walk from a along right-most "
+            "children-with-children reaches a's deepest level and the walk from b along left-most "
+            "children-with-children reaches b's deepest level"]
 
 
 def trusted_base(prop):
